@@ -87,6 +87,7 @@ func (m *ShadowMemcall) log(op string, p *ShadowPage, fault bool, note string) {
 }
 
 func (m *ShadowMemcall) Alloc(size int) ([]byte, error) {
+	defer vsched.LockDoubles()()
 	if m.fault("Alloc") {
 		m.log("Alloc", nil, true, "")
 		return nil, ErrMemcall
@@ -100,6 +101,7 @@ func (m *ShadowMemcall) Alloc(size int) ([]byte, error) {
 }
 
 func (m *ShadowMemcall) Lock(b []byte) error {
+	defer vsched.LockDoubles()()
 	p := m.page(b, "Lock")
 	vsched.Point(&vsched.Op{Kind: "mc.Lock", Obj: &p.obj})
 	if m.fault("Lock") {
@@ -121,6 +123,7 @@ func nonZero(b []byte) bool {
 }
 
 func (m *ShadowMemcall) Unlock(b []byte) error {
+	defer vsched.LockDoubles()()
 	p := m.page(b, "Unlock")
 	vsched.Point(&vsched.Op{Kind: "mc.Unlock", Obj: &p.obj})
 	if m.fault("Unlock") {
@@ -164,6 +167,7 @@ func containsWindow(hay, secret []byte) bool {
 }
 
 func (m *ShadowMemcall) Free(b []byte) error {
+	defer vsched.LockDoubles()()
 	p := m.page(b, "Free")
 	vsched.Point(&vsched.Op{Kind: "mc.Free", Obj: &p.obj})
 	if m.fault("Free") {
@@ -186,6 +190,7 @@ func (m *ShadowMemcall) Free(b []byte) error {
 }
 
 func (m *ShadowMemcall) Protect(b []byte, f memcall.MemoryProtectionFlag) error {
+	defer vsched.LockDoubles()()
 	p := m.page(b, "Protect")
 	want := ProtNone
 	switch f {
@@ -236,6 +241,7 @@ func (m *ShadowMemcall) PageOf(b []byte) *ShadowPage {
 
 // ProtOf returns the shadow protection of the page holding b (-1 unknown, -2 unmapped).
 func (m *ShadowMemcall) ProtOf(b []byte) int {
+	defer vsched.LockDoubles()()
 	p := m.PageOf(b)
 	if p == nil {
 		return -1
